@@ -136,7 +136,7 @@ def encode(c):
             for rq, out in zip(i.get("reqs") or [], picks):
                 tail.append(C("OReq", S(rq["hname"]), S(rq["hval"]), S(out["key"]), Z(out["draw"]), Z(out["status"]),
                               S(out["result"]), S(out["target"])))
-            if len(picks) != len(i.get("reqs") or []) or len(o.get("points") or []) != 2 + len(i.get("steps") or []):
+            if len(picks) != len(i.get("reqs") or []) or len(o.get("points") or []) != 2 + len(i.get("steps") or []) + (1 if i.get("late") else 0):
                 tail.append(C("OReq", S(""), S(""), S(""), Z(0), Z(-7), S("missing"), S("")))
         return Rec(t_policy=S(i["policy"]), t_hkey=S(i["hkey"]), t_tags=L([S(t) for t in i.get("tags") or []]),
                    t_static=L([T(S(static_url(k)), Z(w)) for k, w in enumerate(i.get("static") or [])]),
@@ -193,6 +193,8 @@ def distribution(cases):
         elif g == "watch":
             d["reports"] = d.get("reports", 0) + len(o.get("reports") or [])
             d["watch_after1"] = d.get("watch_after1", 0) + (i.get("after1") is not None)
+            d["watch_late_register"] = d.get("watch_late_register", 0) + bool(i.get("late"))
+            d["watch_rereg"] = d.get("watch_rereg", 0) + sum(1 for st in i.get("steps") or [] if st.get("kind") == "rereg")
             d["selections"] += len(o.get("picks") or [])
         elif g == "retry":
             d["retry_sends"] = d.get("retry_sends", 0) + len(o.get("sends") or [])
